@@ -139,6 +139,8 @@ Qed.
 Lemma max_lt_two64 : max_message_size < two64.
 Proof. unfold max_message_size, two64. change (2 ^ 64) with 18446744073709551616. lia. Qed.
 
+Set Default Proof Using "Type".
+
 Section FrameProofs.
   Variable msg : Type.
   Variable parse : bytes -> N -> parse_result msg.
@@ -208,7 +210,7 @@ Section FrameProofs.
   (* an item never grows the buffer, and takes at least one byte out of it *)
   Lemma decode_item_len : forall buf m rest, decode buf = DItem m rest -> len rest < len buf.
   Proof.
-    intros buf m rest H. unfold frame_decode in H.
+    clear body. intros buf m rest H. unfold frame_decode in H.
     destruct (uv_decode buf) as [n r| | |] eqn:E; try discriminate.
     destruct (max_message_size <? n); [discriminate|].
     destruct (len r <? n); [discriminate|].
@@ -257,7 +259,7 @@ Section FrameProofs.
   Theorem C10_prefix_needs_more : forall m p,
     size_ok m -> proper_prefix p (encode m) -> decode p = DNeedMore.
   Proof.
-    intros m p Hsize [q [Hq Heq]]. unfold frame_encode, size_ok in *.
+    clear wf. intros m p Hsize [q [Hq Heq]]. unfold frame_encode, size_ok in *.
     assert (Hn : len (body m) < two64) by (assert (H := max_lt_two64); lia).
     assert (Hdec := uv_decode_encode (len (body m)) (body m) Hn). rewrite <- Heq in Hdec.
     unfold frame_decode. unfold uv_decode in *.
@@ -276,9 +278,12 @@ Section FrameProofs.
   Qed.
 End FrameProofs.
 
+Arguments parse_exact_hyp {msg} parse body wf.
+Arguments size_ok {msg} body m.
+
 (* ---------- the toy instance satisfies the hypotheses; examples ---------- *)
 
-Lemma toy_parse_exact : parse_exact_hyp toy_msg toy_parse toy_body (fun _ => True).
+Lemma toy_parse_exact : parse_exact_hyp toy_parse toy_body (fun _ => True).
 Proof.
   intros m tail _. unfold toy_parse, toy_body. rewrite takeN_app_len. reflexivity.
 Qed.
